@@ -16,6 +16,9 @@ def leaf(E, params):
             r = run_ref(E, I)
     L = Leaf(E, I, prop)
     if 'safety' in groups: common.assert_safety(L, E, I, o)
+    if 'alloc' in groups:
+        L.concrete(not (o.status == 'PANIC' and o.panic.kind == 'alloc'), f'{o.panic}')
+        if o.status == 'PANIC' and o.panic.kind != 'alloc': L.concrete(False, f'implementation does not return normally: {o.panic}')
     if 'ref' in groups: common.assert_ref(L, E, I, o, r)
     if 'ref_err' in groups: common.assert_ref(L, E, I, o, r, only_err=True)
     if 'framing' in groups: common.assert_framing(L, E, I, o, r)
